@@ -6,6 +6,8 @@ import RTV.Gen.CharTables
   bindall <nTables> <table>*                      -> bound unit map in insertion order: `form cps=unit cps;...`
   parseunits <connector cps> <nTables> <table>* <nQ> (<text cps> <numStart> <numLen>)*
                                                   -> `;`-joined units (cps) or `none`
+  parsefulls <connector cps> <nTables> <table>* <nQ> (<text cps> <numStart> <numLen> <numRes cps|none> <half text:len:res|none>)*
+                                                  -> `;`-joined `u:<unit>:<number|None>:<resolution>` | `novalue` | err:IndexError | err:TypeError
   ukeys <text cps> <numStart> <numLen>            -> `;`-joined keys (cps)
   iso <nRows> (<name> <code>)* <unit cps>         -> `nokey` | `null` | code cps
   compound <nNum> <nScale> <mNum> <mScale> <k>    -> `<num> <scale>` -/
@@ -73,6 +75,35 @@ def hParseUnits : Handler
     | _ => "bad-op"
   | _ => "bad-op"
 
+def parseHalf (f : String) : Option Half :=
+  if f == "none" then none else
+  match f.splitOn ":" with
+  | [t, l, r] => some ⟨parseCps t, parseNat l, if r == "none" then none else some (parseCps r)⟩
+  | _ => none
+
+def showParseOut : ParseOut → String
+  | .noValue => "novalue"
+  | .indexError => "err:IndexError"
+  | .typeError => "err:TypeError"
+  | .unitValue n u r => "u:" ++ showCps u ++ ":" ++ (match n with | some x => showCps x | none => "None") ++ ":" ++ showCps r
+
+def hParseFulls : Handler
+  | conn :: n :: rest =>
+    let (tables, rest) := takeTables (parseNat n) rest
+    let um := buildUnitMap pySpace tables
+    match rest with
+    | nq :: qs =>
+      let rec go (n : Nat) (qs : List String) (acc : List String) : List String :=
+        match n, qs with
+        | n + 1, t :: s :: l :: nr :: h :: more =>
+          let r := parseFull pySpace pyLower um (parseCps conn) (parseCps t) (parseInt s) (parseNat l)
+            (if nr == "none" then none else some (parseCps nr)) (parseHalf h)
+          go n more (showParseOut r :: acc)
+        | _, _ => acc.reverse
+      ";".intercalate (go (parseNat nq) qs [])
+    | _ => "bad-op"
+  | _ => "bad-op"
+
 def hUKeys : Handler
   | [t, s, l] => ";".intercalate ((unitKeys pySpace (parseCps t) (parseInt s) (parseNat l)).map showCps)
   | _ => "bad-op"
@@ -98,6 +129,7 @@ def dispatchUnit (op : String) (args : List String) : Option String :=
   match op with
   | "bindall" => some (hBindAll args)
   | "parseunits" => some (hParseUnits args)
+  | "parsefulls" => some (hParseFulls args)
   | "ukeys" => some (hUKeys args)
   | "iso" => some (hIso args)
   | "compound" => some (hCompound args)
